@@ -144,4 +144,34 @@ PROPS = {
         "assumptions": ["inputs <= 20 KB", "NULL+0 pointer arithmetic inside liblzma (next_in == NULL with avail_in == 0) is not exercised"],
         "real": LZ_REAL, "stub": LZ_STUB,
     },
+
+    "C09": {
+        "level": "exploration",
+        "legs": {
+            "quick": [{"flavour": "asan", "runs": 24000, "seconds": 150}],
+            "thorough": [{"flavour": "asan", "runs": 300000, "seconds": 1500},
+                         {"flavour": "tsan", "runs": 8000, "seconds": 300}],
+        },
+        "nontrivial": "features",
+        "level_text": "The simulated allocator is the monitored resource: every byte liblzma obtains is counted (current and peak). "
+                      "Decoders (stream, auto on .xz and .lzma, .lzma, .lz, threaded stream under the deterministic scheduler) "
+                      "read files that declare dictionaries from 4 KiB to 1.5 GiB (declared, never touched: large requests are "
+                      "mmap'ed without reserve) with limits at need-1, need, need+1, 1, need/2 and a random fraction; on "
+                      "LZMA_MEMLIMIT_ERROR the client reads lzma_memusage(), raises the limit to exactly that and continues. "
+                      "Oracles: allocated bytes <= limit + fixed allowance (32 KiB + 4 KiB per thread) after every call; "
+                      "MEMLIMIT_ERROR iff the limit is below the need; the continued run equals the unlimited run; the reported "
+                      "need is >= the peak of the unlimited run; threaded decoder: peak <= hard limit always and <= threading "
+                      "limit whenever a single thread could work within it. Index decoder, lzma_index_buffer_decode and the "
+                      "file-info decoder get the same treatment. Estimates: lzma_raw_encoder_memusage, "
+                      "lzma_easy_encoder_memusage, lzma_stream_encoder_mt_memusage, lzma_raw_decoder_memusage, "
+                      "lzma_easy_decoder_memusage >= measured peak of a real session for seeded option sets.",
+        "level_note": "The xz --memlimit clause is checked by the xzsim engine (thorough tier of C18/C17 runs; see DESIGN.md). "
+                      "Encoder estimates are compared for sessions of <= 400 Blocks because they do not cover the growing Index.",
+        "rule": "One evaluation = one scenario run (decoder-limit, estimate or index-limit scenario; each executes the coder two to "
+                "four times with different limits). distinct_nontrivial = distinct (coder kind, limit position, declared "
+                "dictionary sizes, threading mode) tuples for limits, distinct (coder kind, chain, dict size, match finder, "
+                "threads) tuples for estimates.",
+        "assumptions": ["allowance fixed at 32 KiB + 4 KiB per thread"],
+        "real": LZ_REAL, "stub": LZ_STUB,
+    },
 }
